@@ -161,9 +161,10 @@ Ltac wf_leaf :=
   cbv beta iota;
   lazymatch goal with
   | |- ok_state Panic => exfalso; solve [eauto with nopanic]
+  | |- ok_ws Panic => exfalso; solve [eauto with nopanic]
   | |- _ => idtac
   end;
-  unfold ok_state; cbv beta iota; try exact I;
+  unfold ok_state, ok_ws; cbv beta iota; cbn [snd]; try exact I;
   let FT := fresh "FT" in intros FT;
   wf_hyps; constructor; st_cbn;
   try assumption; auto 8 with wf.
